@@ -1,6 +1,6 @@
 #!/usr/bin/env python3
-"""Builds /verif/seeded/<Cxx>-<n>/ from seeded_raw (agent output) plus the
-confirmation logs written by tools/confirm_seed.sh."""
+"""(Historical) built /verif/seeded/<Cxx>-<n>/ from the raw agent output (seeded_raw,
+since removed) plus the confirmation logs written by tools/confirm_seed.sh."""
 import json, os, re, shutil, sys
 
 V = '/verif'
@@ -40,7 +40,7 @@ def main():
         if not os.path.isdir(raw) or sid not in summary:
             continue
         st = dict(kv.split('=', 1) for kv in summary[sid].split())
-        ok = st.get('apply') == '0' and st.get('build', '').replace('/', '') in ('00',) and st.get('demo_pristine') == '0' and st.get('demo_patched') not in ('0', '', None)
+        ok = st.get('apply') == '0' and st.get('build', '').endswith('/0') and st.get('demo_pristine') == '0' and st.get('demo_patched') not in ('0', '', None)
         if not ok:
             print('NOT KEPT', sid, summary[sid])
             continue
@@ -63,7 +63,7 @@ def main():
             'patch': 'patch.diff' + (' (re-applied by hand with the same intent on top of later fix: commits; the agent\'s original is patch_original.diff)' if os.path.exists(os.path.join(dst, 'patch_original.diff')) else ''),
             'demonstration': 'demo.sh (run from the root of a worktree of /repo with this directory copied to out/%s)' % n,
             'confirmed_by_me': {
-                'how': 'tools/confirm_seed.sh %s %s: scratch worktree of /repo HEAD under /tmp; demo on the pristine tree; git apply; go build ./... and go build -tags llvm14 ./ssa/... ./cl/... ./internal/build/... ./internal/cabi/...; go test of the touched packages before and after; demo on the patched tree; worktree removed' % (cid, n),
+                'how': 'tools/confirm_seed.sh %s %s: scratch worktree of /repo HEAD under /tmp; demo on the pristine tree; git apply; go build ./... (exit 1 on the pristine tree as well: the default build needs LLVM 19 headers, as for the baseline [build failed] packages) and go build -tags llvm14 ./ssa/... ./cl/... ./internal/build/... ./internal/cabi/...; go test of the touched packages before and after; demo on the patched tree; worktree removed' % (cid, n),
                 'result': summary[sid],
                 'log': 'confirm.log',
             },
